@@ -94,6 +94,19 @@ def gen_cases(ctx):
         {"op": "group", "helper": "nth", "kind": "float", "args": {"drop_na": True, "index": -3}, "vals": [1.0, 2.0, "nan", "nan"], "g": [0, 0, 1, 1]},
         {"op": "group", "helper": "count", "kind": "float", "args": {"drop_na": True}, "vals": [1.0, "nan", "nan"], "g": [0, 0, 1]},
     ]
+    # exactly one element left after the missing ones are dropped (and none, and two): "fewer elements than the statistic needs"
+    # is counted AFTER the drop
+    for h in HELPERS:
+        for vals in (["nan", 5.0], [5.0, "nan", "nan"], ["nan", "nan"], [2.0, "nan", 5.0]):
+            a = {"drop_na": None} if h not in ("all", "any") else {}
+            if h in ("std", "var"):
+                a["ddof"] = 0
+            if h == "nth":
+                a["index"] = 0
+            if h == "quantile":
+                a["q"] = "1/2"
+            cases.append({"op": "vector", "helper": h, "kind": "float", "args": a, "vals": vals})
+            cases.append({"op": "group", "helper": h, "kind": "float", "args": a, "vals": vals + vals, "g": [0] * len(vals) + [1] * len(vals)})
     # an order-dependent helper listed after helpers that may rearrange what they are given (median, quantile, sort-based ones)
     for _ in range(24 if ctx.tier == "quick" else 400):
         kind = rng.choice(["float", "int"])
